@@ -391,6 +391,14 @@ def setup(ctx: FunctionContext) -> Exec:
                 print(f"{setup_sig} trace:")
                 render_trace(setup_ex.context)
 
+        elif setup_ex.context.is_stuck():
+            # a path stopped by an internal error inside a sub-call has no error of its own, but it is not a
+            # post-setUp state either
+            warn_code(
+                INTERNAL_ERROR,
+                f"in {setup_sig}, execution got stuck: {setup_ex.context.get_stuck_reason()}",
+            )
+
         else:
             # note: ex.path.to_smt2() needs to be called at this point. The solver object is shared across paths,
             # and solver.to_smt2() will return a different query if it is called after a different path is explored.
